@@ -118,9 +118,34 @@ def invalid_jobs(tier, mm):
             jobs.append(dict(base, kind="inv-unknown-option", opts={"lang": lang, "extra": ["--frobnicate"]}))
             jobs.append(dict(base, kind="inv-version", opts={"extra": ["-v"]}))
             jobs.append(dict(base, kind="inv-help", opts={"extra": ["-h"]}))
+            # failures that are not RP2Errors: configparser rejects the file before rp2 validates anything
+            good = l6.ini_text(inp)
+            jobs.append(dict(base, kind="inv-ini-duplicate-section", ini_text=good + "\n[in_header]\ntimestamp = 0\n"))
+            jobs.append(dict(base, kind="inv-ini-duplicate-option", ini_text=good.replace("[general]\n", "[general]\nassets = BTC\n", 1)))
+            jobs.append(dict(base, kind="inv-ini-no-section-header", ini_text="assets = BTC\n" + good))
+            jobs.append(dict(base, kind="inv-ini-garbage-line", ini_text=good + "\nthis line is neither a section nor an option\n"))
+            jobs.append(dict(base, kind="inv-ods-not-spreadsheet", ods_text=True))
             bad = negative_amount(inp)
             jobs.append(dict(base, kind="inv-negative-amount", inp=bad))
             jobs.append(dict(base, kind="inv-overdrawn", inp=c16.overdrawn_input()))
+    return jobs
+
+
+def env_jobs(tier, mm):
+    """runs with the environment variables rp2 reads (developer switches): RP2_ENABLE_PROFILER, LOG_LEVEL -- valid and invalid input"""
+    rng = core.Rng(core.seed(), 181)
+    jobs = []
+    for c in l6.COUNTRIES:
+        lang = mm[c]["langs"][0]
+        for env in ({"RP2_ENABLE_PROFILER": "1"}, {"LOG_LEVEL": "DEBUG"}, {"RP2_ENABLE_PROFILER": "1", "LOG_LEVEL": "DEBUG"}):
+            inp = l6.gen_input(rng, rng.choice(l6.SHAPES))
+            base = {"country": c, "opts": {"lang": lang}, "inp": inp, "audit": True, "hashseed": 0, "supported": True, "env": env,
+                    "kind": "env-" + "+".join(sorted(env))}
+            if rng.chance(40):
+                base["opts"]["outdir"] = "default"
+            jobs.append(base)
+            if tier != "quick" or "RP2_ENABLE_PROFILER" in env:
+                jobs.append(dict(base, kind=base["kind"] + "-invalid", supported=False, ini_text=l6.ini_text(inp, holders=["Nobody"])))
     return jobs
 
 
@@ -281,7 +306,7 @@ def run(tier, build, replay=None):
             # the matrix is shared with C16/C17; judge a seed-dependent half of it plus everything that is not a plain matrix run
             keep = [i for i, j in enumerate(jobs) if j.get("kind") != "matrix" or (i + core.seed()) % 2 == 0]
             jobs, results = [jobs[i] for i in keep], [results[i] for i in keep]
-        inv = invalid_jobs(tier, mm)
+        inv = invalid_jobs(tier, mm) + env_jobs(tier, mm)
         jobs = jobs + inv
         results = results + l6.run_jobs(inv)
         st_jobs = selftest_jobs()
@@ -315,7 +340,8 @@ def run(tier, build, replay=None):
         "rule": "static: every import statement and every watched call site of src/rp2 judged against the policy lists (Coq, by vm_compute over the "
                 "regenerated tables; re-derived in Python for diagnostics).  dynamic: real subprocess runs of the five entry points under the audit "
                 "hook (valid inputs of the L6 matrix + invalid inputs: corrupt ODS, bad sections, JSON config, unknown holder/asset, bad dates and "
-                "options, -h/-v, negative amounts, overdrawn accounts); non-trivial = not a plain default-window matrix run",
+                "options, -h/-v, negative amounts, overdrawn accounts, INI files configparser rejects (duplicate section / option, option before any "
+                "section, garbage line); runs with RP2_ENABLE_PROFILER and LOG_LEVEL set); non-trivial = not a plain default-window matrix run",
         "samples": [{"cmd": c16.describe(j), "exit": r["rc"], "events": [e["ev"] for e in (r.get("audit") or [])][:12]} for j, r in list(zip(jobs, results))[:2]],
         "traces_validated_against_impl": len(jobs),
         "static": {"modules": len(table), "imports": n_imports, "call_sites": n_sites, "coq_checkers": coq_static},
